@@ -10,6 +10,9 @@ import refsym
 import replaylib as rl
 
 IMPORTS = 'From SV Require Import Base.Sym Base.Tensor Model.SymInst Model.Sectors Model.Array.\n'
+# (C05h) fermionic round trip: Model.Fermi.f_fuse with several groups and Proofs.FermiFuseRoundtrip.f_unfuse_groups
+IMPORTS_F = ('From SV Require Import Base.Sym Base.Tensor Gen.PhasePerm Model.SymInst Model.Sectors Model.Array Model.Arith '
+             'Model.Fermi Proofs.FermiFuseRoundtrip.\n')
 SYMS = ['Z2', 'U1', 'Z2Z2', 'U1U1', 'Z4']
 
 
@@ -278,6 +281,7 @@ def run(ctx):
     # ---- fermionic arrays, with and without pending (lazy) signs: both strategies agree, the lazy and the
     #      synchronised copy fuse to the same array, and unfusing restores the (transposed) original exactly
     fstats = {'cases': 0, 'pending_signs': 0, 'identity_perm_ket_leading': 0, 'odd_blocks': 0}
+    fexprs, fmeta = [], []   # (C05h) model cases of the fermionic round-trip theorems
     for k in range(n_cases // 2):
         sym = ['Z2', 'U1', 'Z2Z2', 'U1U1'][k % 4]
         nd = rng.randint(2, 4)
@@ -327,6 +331,24 @@ def run(ctx):
                     z = z.unfuse(position + g)
             z = z.phase_sync()
             xt = xs.transpose(tuple(perm)).phase_sync()
+            # (C05h) tie of Props/C05h.v: f_fuse with SEVERAL groups, and the iteration f_unfuse_groups the
+            # round-trip theorem is stated over, against the implementation (values with pending signs, labels)
+            if len(fexprs) < (400 if ctx.thorough else 120):
+                fring = gen.ring_of(x)
+                FA = '%s %s' % (sym, fring)
+                FX = gen.gfarray(x, sym, fring)
+                fgl = '[' + '; '.join(gen.gnatlist(g) for g in groups) + ']'
+                yl = x.fuse(*groups)
+                zl = yl
+                for g in reversed(range(len(groups))):
+                    if len(groups[g]) > 1:
+                        zl = zl.unfuse(position + g)
+                fexprs.append('farray_eqb %s (f_fuse %s %s %s) %s' % (FA, FA, FX, fgl, gen.gfarray(yl, sym, fring)))
+                fmeta.append(('Fermi.f_fuse', sym, k, str(groups)))
+                fexprs.append('match f_unfuse_groups %s (f_fuse %s %s %s) %d%%nat %s with Some c => farray_eqb %s c %s | None => false end' % (
+                    FA, FA, FX, fgl, position, fgl, FA, gen.gfarray(zl, sym, fring)))
+                fmeta.append(('FermiFuseRoundtrip.f_unfuse_groups', sym, k, str(groups)))
+                ctx.count(2)
             if errs is None:
                 if z.ndim != xt.ndim or any(i.chargemap != j.chargemap or i.dual != j.dual for i, j in zip(z.indices, xt.indices)):
                     errs = {'error': 'unfusing does not restore the index structure'}
@@ -355,6 +377,12 @@ def run(ctx):
     import tie_concat
     tie_broken += tie_concat.tie(ctx, sr, concat_cases)
     found += tie_concat.found
+    fbad = common.run_cases(ctx, 'ffuse', IMPORTS_F, '', fexprs, shard=40)
+    if fbad is None:
+        tie_broken.append('cases.v (fermionic f_fuse / f_unfuse_groups model vs implementation) did not evaluate')
+    elif fbad:
+        tie_broken += ['%s disagrees with the implementation (symmetry %s, case %d, groups %s)' % fmeta[i] for i in fbad[:10]]
+        ctx.extra['disagreeing_fermionic_cases'] = [fexprs[i][:3000] for i in fbad[:2]]
     if bad_idx is None:
         tie_broken.append('cases.v (fuse/unfuse model vs implementation) did not evaluate')
     elif bad_idx:
@@ -367,7 +395,7 @@ def run(ctx):
         ctx.violation('proof obligation or tie of C05 no longer checks',
                       {'broken': ctx.broken, 'replay': rl.record('proof_phase')}, found_input=False)
     ctx.extra['case_classes'] = stats
-    ctx.extra['tie'] = {'model_cases': len(exprs)}
+    ctx.extra['tie'] = {'model_cases': len(exprs), 'fermionic_model_cases': len(fexprs)}
     ctx.coverage['rule'] = ('random abelian arrays (rank 2-4, five symmetries, random dualness/charge, any subset of valid sectors stored, real and '
                             'Gaussian-integer data, a quarter already fused once) x random disjoint axis groups in random order (single-axis, '
                             'permuted, non-adjacent) x strategies insert/concat x cache on/off; non-trivial = a multi-axis group on a sparse or '
